@@ -301,12 +301,14 @@ def written_values(ctx, cases, res):
 
 
 
-JUDGE_KIND = {"C09": "spec-dd", "C19": "protocol", "C11": "swap", "C02": "derivation"}
+JUDGE_KIND = {"C09": "spec-dd", "C19": "protocol", "C11": "swap", "C02": "derivation", "C12": "required", "C01b": "sentence"}
 JUDGE_TEXT = {
     "C09": ("with the spec's -- read as a -- at that position of the command line",
             "a reading with options ended where the spec says --"),
     "C19": ("with only the types whose IsBoolFlag() answers true read as flags",
             "the tokens of a reading in which only the types whose IsBoolFlag() answers true are flags"),
+    "C12": ("with every option whose environment variable is set counted as satisfied where the spec requires it",
+            "a reading in which the environment only satisfies options absent from the line"),
 }
 
 
@@ -389,6 +391,19 @@ def check_C01(ctx):
     sc, ns, na = small_scope_cases(ctx, 3, ctx.scale(3, 4), limit=ctx.scale(40000, 400000))
     res2 = correspond(ctx, sc, fields, "small scope")
     st2 = judge_sentences(ctx, sc, res2, "C01")
+    # concrete syntax: specs made of blanks only (a well-formed spec without tokens: only the empty line is a sentence)
+    # and specs padded or separated with tabs and runs of blanks
+    bdecls = [gen.mkopt("custom", "a", custom=dict(gen.CUSTOM_FLAG)), gen.mkopt("strings", "o"), gen.mkarg("strings", "X"), gen.mkarg("strings", "Y")]
+    btoks = ["-a", "-o", "v", "x", "--", "-ov"]
+    blank = []
+    for sp in (" ", "\t", "   ", " \t ", " X ", "\tX\t-a", "X  \t [-a]  ", "  [OPTIONS]\tX...", "\t[-a]\t", " -- X "):
+        for n in (0, 1, 2, 3):
+            for t in itertools.product(btoks, repeat=n):
+                blank.append({"op": "run", "env": {}, "version": None, "root": gen.mkcmd("app", decls=copy.deepcopy(bdecls), spec=sp, policy=0), "argv": list(t)})
+    number(blank, start=len(cases) + len(sc))
+    res3 = correspond(ctx, blank, fields, "specs of blanks and padded specs")
+    st3 = judge_sentences(ctx, blank, res3, "C01")
+    ctx.stream("specs of blanks and padded specs", 0, **st3)
     ctx.stream("random specs x sentences and mutations", 0, **st1,
                mutated=sum(1 for c in cases if c.get("_muts")), with_env=sum(1 for c in cases if c["env"]))
     ctx.stream("small scope", 0, specs=ns, argvs=na, **st2)
